@@ -123,6 +123,8 @@ class ProofUnit(Unit):
             try:
                 rep = V.verify(r["contract"], r.get("callees"), r.get("spec_functions"), r.get("options"))
             except Exception as e:
+                if os.environ.get("VF_DEBUG"):
+                    import traceback as _tb; print(_tb.format_exc())
                 if not isinstance(e, (V.BindingError, Unsupported)):
                     import traceback as _tb
                     e = Unsupported("engine failure on the current source: %r at %s" % (e, _tb.format_exc().strip().splitlines()[-3:]))
